@@ -47,45 +47,7 @@ fn replay_f_c26a_batch_promotion_keeps_quorums_intersecting() {
     );
 }
 
-// ---------------------------------------------------------------------------------------------
-// F-C03a  a node started alone and later expanded wins an election without any vote
-// ---------------------------------------------------------------------------------------------
-#[tokio::test]
-async fn replay_f_c03a_expanded_single_node_needs_real_votes() {
-    let handler = ElectionHandler::<MockTypeConfig>::new(1);
-    let mut membership = MockMembership::<MockTypeConfig>::new();
-    // RaftMembership: is_single_node_cluster() == (initial_cluster_size == 1), fixed at start-up ...
-    membership.expect_is_single_node_cluster().returning(|| true);
-    membership.expect_initial_cluster_size().returning(|| 1);
-    // ... while the current membership has two other voters (joined and promoted later)
-    membership.expect_voters().returning(|| vec![node(2), node(3)]);
-    let mut raft_log = MockRaftLog::new();
-    raft_log.expect_last_log_id().returning(|| Some(LogId { index: 5, term: 1 }));
-    let mut transport = MockTransport::<MockTypeConfig>::new();
-    // nobody grants a vote
-    transport.expect_send_vote_requests().returning(|_, _, _| {
-        Ok(VoteResult {
-            peer_ids: HashSet::from([2, 3]),
-            responses: vec![
-                Ok(VoteResponse { term: 2, vote_granted: false, last_log_index: 5, last_log_term: 1 }),
-                Ok(VoteResponse { term: 2, vote_granted: false, last_log_index: 5, last_log_term: 1 }),
-            ],
-        })
-    });
-    let result = handler
-        .broadcast_vote_requests(
-            2,
-            Arc::new(membership),
-            &Arc::new(raft_log),
-            &Arc::new(transport),
-            &Arc::new(RaftNodeConfig::default()),
-        )
-        .await;
-    assert!(
-        result.is_err(),
-        "candidate 1 won term 2 although the current membership has voters {{2,3}} and neither granted a vote"
-    );
-}
+// F-C03a: see server_replays.rs (the repaired code is RaftMembership::is_single_node_cluster, in d-engine-server)
 
 // ---------------------------------------------------------------------------------------------
 // F-C08a  capped legacy entries + new entries = gapped AppendEntries payload
